@@ -6,6 +6,7 @@ import J1939.Gen.Eval
 import J1939.Model.Ecu
 import J1939.Model.Dm1
 import J1939.Model.Dll21
+import J1939.Model.Ca
 namespace J1939.Driver
 open J1939 J1939.Gen
 
@@ -42,7 +43,15 @@ structure St where
   now  : Nat := 1000000000          -- virtual clock (µs); starts at 1000 s so that deadlines are never 0
   ecus : List EcuSt := []
   d21  : List D21St := []
+  cas  : List Ca.Ca := []
 deriving Inhabited
+
+def showFrame (f : Frame) : String := s!"tx {f.id} {showList f.data}"
+
+def withCa (st : St) (i : Nat) (f : Ca.Ca → Ca.Ca × List String) : St × List String :=
+  match st.cas[i]? with
+  | none => (st, ["bad-ca"])
+  | some c => let (c', out) := f c; ({ st with cas := st.cas.set i c' }, out)
 
 def showOut21 : Dll21.Out → String
   | .tx f => s!"tx {f.id} {showList f.data}"
@@ -222,6 +231,55 @@ def step (st : St) (line : String) : St × List String :=
   | ["d21.dump", i] =>
     match i.toNat? with
     | some i => withD21 st i fun e => (e, [dumpD21 e.st])
+    | none => (st, ["bad-args"])
+  | ["ca.new", name, pref, bypass] =>
+    match name.toNat?, bypass.toNat? with
+    | some name, some b => ({ st with cas := st.cas ++ [Ca.new (Name.ofValue name) pref.toNat? (b != 0)] }, [])
+    | _, _ => (st, ["bad-args"])
+  | ["ca.claim", i] =>
+    match i.toNat? with
+    | some i => withCa st i fun c => let (c', fs, d) := Ca.claimAsync c; (c', fs.map showFrame ++ [s!"timer {d}"])
+    | none => (st, ["bad-args"])
+  | ["ca.rxclaim", i, sa, data] =>
+    match i.toNat?, sa.toNat?, parseList data with
+    | some i, some sa, some data => withCa st i fun c => let (c', fs) := Ca.processAddressClaim c sa data; (c', fs.map showFrame)
+    | _, _, _ => (st, ["bad-args"])
+  | ["ca.request", i, sa, dest, data] =>
+    match i.toNat?, sa.toNat?, dest.toNat?, parseList data with
+    | some i, some sa, some dest, some data => withCa st i fun c =>
+        (c, match Ca.processRequest c sa dest data with
+            | none => ["exc IndexError"]
+            | some .nothing => []
+            | some (.claim f) => [showFrame f]
+            | some (.callbacks a b p) => [s!"reqcb {a} {b} {p}"])
+    | _, _, _, _ => (st, ["bad-args"])
+  | ["ca.sendmsg", i, prio, pgn, data] =>
+    match i.toNat?, prio.toNat?, pgn.toNat?, parseList data with
+    | some i, some prio, some pgn, some data => withCa st i fun c =>
+        (c, match Ca.sendMessage c prio pgn data with | none => ["exc RuntimeError"] | some f => [showFrame f])
+    | _, _, _, _ => (st, ["bad-args"])
+  | ["ca.sendpgn", i, dp, pf, ps, prio, data] =>
+    match i.toNat?, dp.toNat?, pf.toNat?, ps.toNat?, prio.toNat?, parseList data with
+    | some i, some dp, some pf, some ps, some prio, some data => withCa st i fun c =>
+        (c, match Ca.sendPgnSa c with
+            | none => ["exc RuntimeError"]
+            | some sa => [s!"pgn {dp} {pf} {ps} {prio} {sa} {showList data}"])
+    | _, _, _, _, _, _ => (st, ["bad-args"])
+  | ["ca.sendreq", i, dp, pgn, dest] =>
+    match i.toNat?, dp.toNat?, pgn.toNat?, dest.toNat? with
+    | some i, some dp, some pgn, some dest => withCa st i fun c =>
+        (c, match Ca.sendRequest c pgn dest with
+            | none => ["exc RuntimeError"]
+            | some (sa, pf, ps, prio, data) => [s!"pgn {dp} {pf} {ps} {prio} {sa} {showList data}"])
+    | _, _, _, _ => (st, ["bad-args"])
+  | ["ca.acceptable", i, dest] =>
+    match i.toNat?, dest.toNat? with
+    | some i, some dest => withCa st i fun c => (c, [if Ca.messageAcceptable c dest then "True" else "False"])
+    | _, _ => (st, ["bad-args"])
+  | ["ca.dump", i] =>
+    match i.toNat? with
+    | some i => withCa st i fun c =>
+        (c, [s!"ca {c.state} {c.announced} {showOptNat c.addr} {showOptNat (Ca.deviceAddress c)}"])
     | none => (st, ["bad-args"])
   | ["dm1.send", pgn, lamps, flat] =>
     match pgn.toNat?, parseList lamps, parseList flat with
